@@ -90,7 +90,8 @@ impl Family for Loaders {
             let info = raw.info();
             let pk = pool.to_bytes();
             let r = if mutable {
-                pino::whirlpool::tick_array::loader::load_tick_array_mut(&info, &pk).map(|_| ())
+                // through the handlers' own entry point (both slots the same account: the lower-array path)
+                pino::whirlpool::tick_array::loader::TickArraysMut::load(&info, &info, &pk).map(|_| ())
             } else {
                 pino::whirlpool::tick_array::loader::load_tick_array(&info, &pk).map(|_| ())
             };
